@@ -422,4 +422,11 @@ def r5_8(ctx: Ctx) -> RuleResult:
     return rr
 
 
-RULES = [r5_1, r5_3, r5_4, r5_5, r5_6, r5_7, r5_8]
+def r5_9(ctx: Ctx) -> RuleResult:
+    """move refuses exactly the destinations inside the source: the test it relies on compares token sequences (= R14.5)."""
+    from .c14 import r14_5
+
+    return r14_5(ctx, "R5.9")
+
+
+RULES = [r5_1, r5_3, r5_4, r5_5, r5_6, r5_7, r5_8, r5_9]
